@@ -1,4 +1,5 @@
 import JenVerif.Props.Common
+import JenVerif.Lemmas.Frame
 /-
   C05 — Import names are unique and legal for any path, hint and prefix.
 -/
@@ -124,6 +125,24 @@ theorem prefixed_unique (cfg : Cfg) (f : FileS) (p : Str) :
 theorem renamed_is_aliased (cfg : Cfg) (f : FileS) (p : Str) :
     (chooseDef cfg f p).name ≠ (chooseBase cfg f p).1 → (chooseDef cfg f p).alias = true :=
   RegistryInv.renamed_is_aliased cfg f p
+
+/-- the registrations performed INSIDE the renderer keep the invariant: any chain of `register`
+    steps does -/
+theorem regFrom_inv (tl : Str → Str) (ip : Nat → Bool) {S : Str → Bool} {f f' : FileS}
+    (h : Frame.RegFrom (cfgOf tl ip) S f f') (hI : Inv (cfgOf tl ip) f) (hH : HintsOk f) :
+    Inv (cfgOf tl ip) f' ∧ HintsOk f' := by
+  induction h with
+  | refl => exact ⟨hI, hH⟩
+  | step _ _ ih =>
+    exact ⟨register_inv ih.1 ih.2 (stdOk tl ip) _ (cfree_cguard (cfree tl ip ih.1) _), register_hintsOk ih.2 _⟩
+
+/-- C05 for rendered files: after File.Render / RenderWithFile of ANY tree, from any state that
+    satisfies the invariant (e.g. any state reached as in `names_unique_and_legal`), the import
+    table still has one entry per path, unique and legal names -/
+theorem render_keeps_names_unique_and_legal (tl : Str → Str) (ip : Nat → Bool) (f : FileS) (prev : Option Code) (c : Code)
+    (hI : Inv (cfgOf tl ip) f) (hH : HintsOk f) :
+    Inv (cfgOf tl ip) (Code.renderS (cfgOf tl ip) f prev c).2 ∧ HintsOk (Code.renderS (cfgOf tl ip) f prev c).2 :=
+  regFrom_inv tl ip (Frame.renderS_reach (cfgOf tl ip) c f prev) hI hH
 
 -- non-vacuity: a file with a keyword hint, a prefix and colliding paths satisfies the guard and
 -- reaches a state with three distinct legal names (checked by evaluation in RegistryInv)
